@@ -182,6 +182,36 @@ def main():
             if bad:
                 break
         res["threads"].append(dict(lines=[na, nb], schedules=tried, bad=bad))
+    # what decoding / encoding a CDB returns belongs to the caller: changing it must not change what the next call returns
+    res["cdb_fresh"] = None
+    seen_cls = set()
+    for h in inp["histories"]:
+        for spec in h:
+            if spec["cls"] in seen_cls or res["cdb_fresh"]:
+                continue
+            seen_cls.add(spec["cls"])
+            try:
+                cls, cmd = build(spec)
+                d1 = cls.unmarshall_cdb(cmd.cdb)
+                snap = dict(d1)
+                for k in list(d1):
+                    d1[k] = -1
+                d1["__changed_by_the_caller__"] = 1
+                d2 = cls.unmarshall_cdb(cmd.cdb)
+                if d2 != snap:
+                    res["cdb_fresh"] = "%s.unmarshall_cdb: after the caller changed the dictionary a first decode returned, decoding the same CDB again gives %s instead of %s" % (
+                        spec["cls"], str(d2)[:160], str(snap)[:160])
+                    continue
+                b1 = cls.marshall_cdb(snap)
+                keep = bytes(b1)
+                for i in range(len(b1)):
+                    b1[i] ^= 0xFF
+                b2 = cls.marshall_cdb(snap)
+                if bytes(b2) != keep:
+                    res["cdb_fresh"] = "%s.marshall_cdb: after the caller changed the bytes a first encode returned, encoding the same dictionary again gives %s instead of %s" % (
+                        spec["cls"], bytes(b2).hex(), keep.hex())
+            except Exception:  # noqa
+                continue
     # caller-supplied dictionaries / lists are not modified
     from pyscsi.pyscsi.scsi_cdb_extended_copy_spc4 import ExtendedCopy as X4
     from pyscsi.pyscsi.scsi_cdb_extended_copy_spc5 import ExtendedCopy as X5
